@@ -1,10 +1,11 @@
 """C11 — saving is neutral: pretty / packaging change layout only; save never edits memory.
 
 impl: Document.save(target, packaging in {zip, folder, xml}, pretty in {False, True}) on every
-sample and template and on generated text documents (paragraph layouts of paratok, plus frames),
-and sequences of saves.  observed (lxml only): per paragraph / heading the ODF §6.1.2 reading,
-per part the start tags with their attributes in order, the in-memory serialisation of the parts
-before / after.  model: OdfModel/Para/Pretty.lean (pretty_indent over a first-child / next-sibling
+sample and template, on generated text documents (paragraph layouts of paratok, plus frames) and on
+generated documents whose pictures are shown by one or several image frames, and sequences of saves.
+observed (lxml only): per paragraph / heading the ODF §6.1.2 reading, per part the start tags with
+their attributes in order (flat XML: of the whole export, with depth, a picture of the package
+standing for its bytes), the in-memory serialisation of the parts before / after.  model: OdfModel/Para/Pretty.lean (pretty_indent over a first-child / next-sibling
 forest) driven with the same trees; TEXT_CONTENT regenerated from container.py."""
 from __future__ import annotations
 
@@ -170,7 +171,84 @@ def flat_view(data: bytes) -> dict:
 
     root = etree.fromstring(data)
     reads = [reading(p) for p in root.iter(T + "p", T + "h")]
-    return {"reads": reads}
+    inside: list = []
+    return {"reads": reads, "skel": structure(root, None, inside), "inside": inside}
+
+
+IMAGE = DRAW_NS + "image"
+BINARY = pt.O + "binary-data"
+HREF = "{http://www.w3.org/1999/xlink}href"
+FLAT_ORDER = ("meta.xml", "settings.xml", "styles.xml", "content.xml")  # the order in which the flat export lines the parts up
+
+
+def picture_id(data: bytes) -> str:
+    import hashlib
+
+    return f"{len(data)} bytes sha1={hashlib.sha1(data).hexdigest()[:16]}"
+
+
+def structure(root, pictures, inside, base=()) -> list:
+    """the descendants of `root` in document order as (depth, tag, sorted attributes).  The one thing a flat file must write
+    differently is a picture of the package: there draw:image carries office:binary-data instead of the xlink reference
+    (ODF 1.2 part 1, 10.4.4).  Such a draw:image is one entry (depth, draw:image, 'picture', length and digest of its bytes)
+    on both sides: in the flat file the decoded binary data, in a package part (`pictures` = parts of the package, only
+    given for content.xml, whose pictures the export embeds) the bytes of the part the href names.  What else such a
+    draw:image holds (ODF allows text:p) goes to `inside`, apart."""
+    import base64
+
+    out: list = []
+
+    def walk(e, depth):
+        for ch in e:
+            if not isinstance(ch.tag, str):
+                continue
+            if ch.tag == IMAGE:
+                data = None
+                binary = ch.find(BINARY)
+                if binary is not None:
+                    try:
+                        data = base64.b64decode(binary.text or "")
+                    except Exception:  # noqa: BLE001
+                        data = b"?" + (binary.text or "").encode()
+                elif pictures is not None and ch.get(HREF):
+                    data = pictures.get(ch.get(HREF).removeprefix("./")) or None
+                if data is not None:
+                    out.append((depth, IMAGE, "picture", picture_id(data)))
+                    inside.append([(x.tag, tuple(sorted(x.attrib.items()))) for x in ch.iterdescendants() if isinstance(x.tag, str) and x.tag != BINARY])
+                    continue
+            out.append((depth, ch.tag, tuple(sorted(ch.attrib.items()))))
+            walk(ch, depth + 1)
+
+    walk(root, 1)
+    return out
+
+
+def flat_expected(zip_bytes: bytes) -> dict:
+    """what the flat export of the document saved as `zip_bytes` has to hold: the children of the root of meta, settings,
+    styles and content, one part after the other, the pictures of content.xml taken from the package"""
+    import zipfile
+
+    from lxml import etree
+
+    skel: list = []
+    inside: list = []
+    with zipfile.ZipFile(io.BytesIO(zip_bytes)) as z:
+        names = set(z.namelist())
+        pictures = {n: z.read(n) for n in names if not n.endswith("/")}
+        for part in FLAT_ORDER:
+            if part in names:
+                skel += structure(etree.fromstring(z.read(part)), pictures if part == "content.xml" else None, inside)
+    return {"skel": skel, "inside": inside}
+
+
+def show(entry) -> str:
+    if entry is None:
+        return "nothing (end of the document)"
+    depth, tag, *rest = entry
+    local = tag.rpartition("}")[2]
+    if rest[0] == "picture":
+        return f"depth {depth}: draw:image with picture {rest[1]}"
+    return f"depth {depth}: {local} {dict((k.rpartition('}')[2], v) for k, v in rest[0])}"[:240]
 
 
 def memory(doc) -> dict:
@@ -237,6 +315,85 @@ def generated_doc(rng):
     return doc
 
 
+def random_png(rng) -> bytes:
+    """a valid small PNG (RGB, 1..3 x 1..3 pixels) with random pixels"""
+    import struct
+    import zlib
+
+    def chunk(kind: bytes, data: bytes) -> bytes:
+        body = kind + data
+        return struct.pack(">I", len(data)) + body + struct.pack(">I", zlib.crc32(body))
+
+    w, h = rng.randrange(1, 4), rng.randrange(1, 4)
+    raw = b"".join(b"\x00" + bytes(rng.randrange(256) for _ in range(3 * w)) for _ in range(h))
+    return b"\x89PNG\r\n\x1a\n" + chunk(b"IHDR", struct.pack(">IIBBBBB", w, h, 8, 2, 0, 0, 0)) + chunk(b"IDAT", zlib.compress(raw)) + chunk(b"IEND", b"")
+
+
+def generated_picture_doc(rng):
+    """a text document or a presentation with 1..3 pictures, each added ONCE to the package (Document.add_file, from a
+    file-like object or from a path) and shown by 1..3 image frames (a logo repeated on several pages / in several
+    paragraphs), frames of different pictures interleaved, now and then a picture that is not in the package (http href)
+    and a text frame; in a text document the frames sit at random places of generated paragraph layouts"""
+    from odfdo import Document, DrawPage, Frame
+
+    kind = "text" if rng.random() < 0.7 else "presentation"
+    doc = Document(kind)
+    body = doc.body
+    body.clear()
+    uses: list = []
+    shared = rng.random() < 0.85
+    for k in range(rng.randrange(1, 4)):
+        data = random_png(rng)
+        if rng.random() < 0.5:
+            uri = doc.add_file(io.BytesIO(data))
+        else:
+            with tempfile.NamedTemporaryFile(suffix=rng.choice([".png", ".PNG", ".img"]), dir="/var/tmp", prefix="c11-pic-") as f:
+                f.write(data)
+                f.flush()
+                uri = doc.add_file(f.name)
+        times = rng.choice([2, 3]) if (shared and k == 0) else rng.choice([1, 1, 2, 3])
+        uses += [("./" + uri) if rng.random() < 0.15 else uri for _ in range(times)]
+    if rng.random() < 0.25:
+        uses.append(f"http://h/pic{rng.randrange(3)}.png")
+    if rng.random() < 0.3:
+        uses.append(None)  # a text frame
+    rng.shuffle(uses)
+
+    def frame(i, uri, anchor):
+        if uri is None:
+            return Frame.text_frame("in frame  x", size=("2cm", "1cm"), name=f"t{i}", anchor_type=anchor)
+        pos = (f"{rng.randrange(9)}cm", f"{rng.randrange(9)}cm") if anchor != "as-char" and rng.random() < 0.5 else None
+        return Frame.image_frame(uri, name=f"logo{i}", size=(f"{rng.randrange(1, 4)}cm", "2cm"), position=pos, anchor_type=anchor)
+
+    if kind == "presentation":
+        page = None
+        for i, uri in enumerate(uses):
+            if page is None or rng.random() < 0.6:
+                page = DrawPage(f"page{i}", name=f"Page {i}")
+                body.append(page)
+            page.append(frame(i, uri, "page"))
+        return doc
+    pars = []
+    for i in range(rng.randrange(1, 5)):
+        tag = "text:h" if rng.random() < 0.2 else "text:p"
+        p = pt.make_paragraph(pt.gen_pieces(rng, raw_ws=rng.random() < 0.2), tag)
+        if tag == "text:h":
+            p.set_attribute("text:outline-level", "1")
+        pars.append(p)
+        body.append(p)
+    for i, uri in enumerate(uses):
+        p = rng.choice(pars)
+        fr = frame(i, uri, rng.choice(["as-char", "as-char", "char", "paragraph"]))
+        kids = p.children
+        if kids and rng.random() < 0.7:
+            rng.choice(kids).insert(fr, xmlposition=3)  # NEXT_SIBLING
+        else:
+            p.append(fr)
+        if rng.random() < 0.5:
+            pt.lxml_of(fr).tail = rng.choice([" after", "x", " "])
+    return doc
+
+
 def save_as(doc, packaging, pretty, tmp: Path):
     """returns ('zip'|'folder'|'xml', bytes or path)"""
     if packaging == "zip":
@@ -291,8 +448,12 @@ def run(chk: core.Check) -> None:
     rng = chk.rng
     chk.rule = (
         "documents: every sample and template of the repository + generated text documents (paragraph / heading layouts of nested spans, links, text:s, tab, "
-        "line-break, bookmarks, notes, frames in every adjacency, a fifth with raw white-space runs) x pretty in {False, True} x packaging in {zip, folder, xml} x "
-        "save sequences (twice; pretty then plain). non-trivial = a document whose paragraphs hold inline elements; distinct by (document, configuration)"
+        "line-break, bookmarks, notes, frames in every adjacency, a fifth with raw white-space runs) + generated text documents and presentations with 1..3 "
+        "pictures, each added once to the package (Document.add_file from a file object or a path) and shown by 1..3 image frames in interleaved order "
+        "(a logo on several pages / in several paragraphs), now and then an http picture and a text frame x pretty in {False, True} x packaging in "
+        "{zip, folder, xml} x save sequences (twice; pretty then plain). flat XML: besides the paragraph texts, every element at its depth with its "
+        "attribute values in the order of the plain zip save (meta, settings, styles, content), a picture of the package embedded with the bytes of its part "
+        "at the draw:image that references it. non-trivial = a document whose paragraphs hold inline elements; distinct by (document, configuration)"
     )
     tmp = Path(tempfile.mkdtemp(prefix="c11-", dir="/var/tmp"))
     try:
@@ -303,6 +464,9 @@ def run(chk: core.Check) -> None:
         for i in range(chk.n(40, 400)):
             seed = rng.randrange(10**9)
             gens.append((f"generated#{seed}", (lambda seed=seed: generated_doc(__import__("random").Random(seed)))))
+        for i in range(chk.n(12, 150)):
+            seed = rng.randrange(10**9)
+            gens.append((f"pictures#{seed}", (lambda seed=seed: generated_picture_doc(__import__("random").Random(seed)))))
         reqs: list = []
         for name, mk in docs + gens:
             one_document(chk, rng, name, mk, tmp)
@@ -334,6 +498,7 @@ def one_document(chk, rng, name, mk, tmp):
         doc = mk()
         ref_bytes = save_as(doc, "zip", False, tmp)
         ref = load_view("zip", ref_bytes)
+        flat_ref = flat_expected(ref_bytes)
     except Exception as e:  # noqa: BLE001
         chk.fail({**case0, "exception": repr(e), "clause": "plain-save"}, f"plain zip save raised {type(e).__name__}")
         return
@@ -370,6 +535,8 @@ def one_document(chk, rng, name, mk, tmp):
             missing = [r for r in want if r not in got]
             if missing:
                 chk.fail({**case, "clause": "paragraph-text", "missing": missing[:3]}, "flat XML export: the text of a paragraph differs from the plain zip save")
+                continue
+            flat_structure(chk, case, flat_ref, view)
             continue
         for part in XML_PARTS:
             if part not in ref:
@@ -405,6 +572,39 @@ def one_document(chk, rng, name, mk, tmp):
             continue
         if last != direct:
             chk.fail({**case, "clause": "save-sequence"}, "the last save of a sequence does not write what a single save writes")
+
+
+def flat_structure(chk, case, want: dict, got: dict) -> None:
+    """flat XML export against the plain zip save of the same document: same elements at the same depth in the same order
+    with the same attribute values, and every picture of the package embedded where the zip save references it"""
+    s0, s1 = want["skel"], got["skel"]
+    n0 = sum(1 for x in s0 if x[1] == IMAGE)
+    n1 = sum(1 for x in s1 if x[1] == IMAGE)
+    chk.count("flat XML: draw:image per document", n0 if n0 < 4 else "4+")
+    pics = [x[3] for x in s0 if x[2] == "picture"]
+    if pics:
+        most = max(pics.count(p) for p in set(pics))
+        chk.count("flat XML: most draw:image showing one picture of the package", most if most < 4 else "4+")
+    if s0 != s1:
+        k = next(i for i in range(min(len(s0), len(s1)) + 1) if i >= len(s0) or i >= len(s1) or s0[i] != s1[i])
+        a = s0[k] if k < len(s0) else None
+        b = s1[k] if k < len(s1) else None
+        detail = {**case, "entry": k, "want": show(a), "got": show(b), "draw:image in the zip save": n0, "draw:image in the flat XML": n1}
+        if a and b and a[:3] == b[:3] and a[2] == "picture":
+            chk.fail({**detail, "clause": "picture-bytes"}, "flat XML export: a draw:image embeds other bytes than the picture it shows in the plain zip save")
+        elif n0 != n1:
+            chk.fail({**detail, "clause": "structure-attributes"},
+                     f"flat XML export: {n1} draw:image instead of the {n0} of the plain zip save (an element is lost, added or moved)")
+        else:
+            chk.fail({**detail, "clause": "structure-attributes"}, "flat XML export: the element structure or an attribute value differs from the plain zip save")
+        return
+    # what an embedded draw:image holds besides the picture: observed, reported in the evidence, not judged here
+    for i, (a, b) in enumerate(zip(want["inside"], got["inside"])):
+        if a or b:
+            key = "kept" if a == b else "differs: " + ",".join(t.rpartition("}")[2] for t, _ in a) + " -> " + (",".join(t.rpartition("}")[2] for t, _ in b) or "nothing")
+            chk.count("flat XML: other children of an embedded draw:image", key)
+            if a != b:
+                chk.extra.setdefault("flat_image_children_differ", []).append({**case, "image": i})
 
 
 def replay(obj: dict) -> int:
